@@ -16,7 +16,9 @@ StepClauses(st, prev, w, w2, op) ==
     Fail(op.k \in DomainOps /\ ~PairNear(st.rx, st.ry, st.frx, st.fry, Tol), "C08.reference_tracks." \o op.k) \cup
     Fail(op.k \in ReshapeOps \cup ReadOps /\ ~(ObsEq(st.rx, prev.rx) /\ ObsEq(st.ry, prev.ry)), "C08.reshape_keeps_reference." \o op.k) \cup
     Fail(st.kinds # "ok" \/ Len(st.x) # Len(st.y) \/ ~AllFinite(st.x) \/ ~AllFinite(st.y) \/ ~FStrictlyIncreasing(st.x), "C09.wellformed." \o op.k) \cup
-    Fail(~st.caller, "C09.caller_modified." \o op.k) \cup
+    \* (a caller that writes through get() may be writing into its own array: the constructor keeps float arrays as they are)
+    Fail(~st.caller /\ op.k # "poke", "C09.caller_modified." \o op.k) \cup
+    Fail(op.k = "poke" /\ ~(ObsEq(st.rx, prev.rx) /\ ObsEq(st.ry, prev.ry)), "C08.reshape_keeps_reference.poke") \cup
     Fail(op.k \notin {"normalize_x", "normalize_y"} /\ ~st.orig_same, "C09.original_changed." \o op.k) \cup
     Fail(op.k = "restore_original" /\ ~(PairNear(st.rx, st.ry, st.ox, st.oy, Tol) /\ PairNear(st.x, st.y, st.ox, st.oy, Tol)), "C09.restore_state") \cup
     Fail(~(SeqOK(st.x, w2.x, 20) /\ SeqOK(st.rx, w2.rx, 20) /\ SeqOK(st.ry, w2.ry, 20) /\ SeqOK(st.ox, w2.ox, 20) /\ SeqOK(st.oy, w2.oy, 20)
@@ -61,6 +63,9 @@ WH(e, j, w, prev) ==
                  Fail(st.outcome = "TypeError" /\ op.k = "interpolate_none" /\ ~st.frame, "C20.frame." \o op.k) \cup
                  Fail(st.outcome = "ValueError" /\ ~st.frame, "C20.frame." \o op.k) \cup
                  (IF st.outcome = "ValueError" /\ st.frame THEN WH(e, j + 1, w, prev) ELSE {})
+            \* a caller's write into a returned array that is not writable (read-only views of pandas data) or not float-typed
+            \* fails in the caller's own code: nothing of the library to judge, the rest of the history is not judged
+            ELSE IF op.k = "poke" /\ st.outcome # "ok" THEN {}
             ELSE IF st.outcome # "ok" THEN {"impl.valid_operation_failed." \o op.k}
             ELSE LET w2 == Apply(w, op)
                      cl == StepClauses(st, prev, w, w2, op) \cup PipelineClause(e, j, w)
